@@ -23,6 +23,18 @@ inductive Err where
   | unmodelled (why : String)
 deriving DecidableEq, Repr, Inhabited
 
+/-- `[f a for a in l]` where `f` may raise (the first exception wins); structural, so that it
+unfolds in proofs -/
+def mapE {α β : Type} (f : α → Except Err β) : List α → Except Err (List β)
+  | [] => .ok []
+  | a :: t =>
+    match f a with
+    | .error e => .error e
+    | .ok b =>
+      match mapE f t with
+      | .error e => .error e
+      | .ok bs => .ok (b :: bs)
+
 /-- the five kinds of property C03 -/
 inductive Kind where
   | bool | int | float | str | array
@@ -145,9 +157,10 @@ def pyRow : PyVal → Row
   | .sc v => ([], [v])
   | .arr sh fl => (sh, fl)
 
-def castRow (d : Dtype) (r : Row) : Except Err Row := do
-  let fl ← r.2.mapM (castTo d)
-  return (r.1, fl)
+def castRow (d : Dtype) (r : Row) : Except Err Row :=
+  match mapE (castTo d) r.2 with
+  | .error e => .error e
+  | .ok fl => .ok (r.1, fl)
 
 /-- dtype of `np.asarray(x)` for one (rectangular) element -/
 def elemDtype (x : PyVal) : Dtype := joinAll ((pyLeaves x).map discover)
@@ -177,10 +190,22 @@ def commonTypeDims : List PyVal → Except Err (Dtype × Nat × Nat)
 the common dtype, leading axes of extent 1 prepended up to the common rank -/
 def constructVarLenProps (vals : List PyVal) : Except Err (Dtype × List Row) := do
   let (d, _, nd) ← commonTypeDims vals
-  let rows ← vals.mapM fun x => do
+  -- numpy infers the `ulonglong` flavour of uint64 for all-large Python ints, which zarr refuses;
+  -- the model has one uint64 only (known finding C03:ragged-int-values-ge-2^63)
+  if d = .u64 then throw (.unmodelled "uint64 flavour of a variable-length array")
+  let rows ← mapE (fun x => do
     let r ← castRow d (pyRow x)
-    return (List.replicate (nd - r.1.length) 1 ++ r.1, r.2)
+    return (List.replicate (nd - r.1.length) 1 ++ r.1, r.2)) vals
   return (d, rows)
+
+/-- `np.asarray(values)` + `_exact_int_array` for values of one shape: one regular array -/
+def regularArr (vals : List PyVal) : Except Err (Dtype × Bool × List Row) :=
+  match exactIntDtype (vals.flatMap pyLeaves) (joinAll ((vals.flatMap pyLeaves).map discover)) with
+  | .error e => .error e
+  | .ok d =>
+    match mapE (fun y => castRow d (pyRow y)) vals with
+    | .error e => .error e
+    | .ok rows => .ok (d, false, rows)
 
 /-- `np.asarray(values)` + `_exact_int_array`, falling back to `construct_var_len_props` on numpy's
 "inhomogeneous shape" `ValueError` -/
@@ -188,14 +213,11 @@ def valuesToArr (vals : List PyVal) : Except Err (Dtype × Bool × List Row) :=
   match vals with
   | [] => .ok (.f64, false, [])
   | x :: _ =>
-    if vals.all (fun y => pyShape y = pyShape x) then do
-      let leaves := vals.flatMap pyLeaves
-      let d ← exactIntDtype leaves (joinAll (leaves.map discover))
-      let rows ← vals.mapM (fun y => castRow d (pyRow y))
-      return (d, false, rows)
-    else do
-      let (d, rows) ← constructVarLenProps vals
-      return (d, true, rows)
+    if vals.all (fun y => pyShape y = pyShape x) then regularArr vals
+    else
+      match constructVarLenProps vals with
+      | .error e => .error e
+      | .ok (d, rows) => .ok (d, true, rows)
 
 /-- `_determine_default_value` after the repair of D2: a zero of the first present value's own type -/
 def defaultFor : PyVal → PyVal
@@ -211,19 +233,25 @@ def determineDefaultValue {ι : Type} (data : List (ι × Attrs)) (name : String
   | none => .sc (.i 0)
 
 /-- one property of `dict_props_to_arr` -/
-def dictPropToArr {ι : Type} (data : List (ι × Attrs)) (name : String) : Except Err Col := do
-  let dflt := determineDefaultValue data name
-  let vals := data.map fun d => (d.2.lookup name).getD dflt
-  let miss := data.map fun d => (d.2.lookup name).isNone
-  let (d, vl, rows) ← valuesToArr vals
-  return { dtype := d, varlen := vl, rows := rows, missing := if miss.any id then some miss else none }
+def filledValues {ι : Type} (data : List (ι × Attrs)) (name : String) : List PyVal :=
+  data.map fun d => (d.2.lookup name).getD (determineDefaultValue data name)
+
+def missingMask {ι : Type} (data : List (ι × Attrs)) (name : String) : List Bool :=
+  data.map fun d => (d.2.lookup name).isNone
+
+def dictPropToArr {ι : Type} (data : List (ι × Attrs)) (name : String) : Except Err Col :=
+  match valuesToArr (filledValues data name) with
+  | .error e => .error e
+  | .ok (d, vl, rows) =>
+    .ok { dtype := d, varlen := vl, rows := rows,
+          missing := if (missingMask data name).any id then some (missingMask data name) else none }
 
 /-- `dict_props_to_arr` -/
 def dictPropsToArr {ι : Type} (data : List (ι × Attrs)) (names : List String) :
     Except Err (List (String × Col)) :=
-  names.mapM fun n => do
+  mapE (fun n => do
     let c ← dictPropToArr data n
-    return (n, c)
+    return (n, c)) names
 
 /-! ## The in-memory geff and `write_dicts` -/
 
